@@ -14,7 +14,7 @@ CONSTANTS
   Ep0 = 4
   T0 = 10000
   A0 = 0
-  FixedServ = FALSE
+  FixedServ = TRUE
   MaxEp = 7
   MaxPay = 2
   MaxOps = 0
